@@ -125,6 +125,11 @@ fn shapes(thorough: bool) -> Vec<Shape> {
         Shape { name: "data-nested-array-build", build: |d| format!("make a get [] make i get 0 jasi (i small pass {d}) start a get [a] i get i add 1 end shout(i)"), expect: Some(count), max_pow: mid },
         Shape { name: "data-nested-array-print", build: |d| format!("make a get [] make i get 0 jasi (i small pass {d}) start a get [a] i get i add 1 end shout(to_string(a).len())"), expect: None, max_pow: mid },
         Shape { name: "data-nested-array-join", build: |d| format!("make a get [1] make i get 0 jasi (i small pass {d}) start a get [a] i get i add 1 end shout(a.join(\",\"))"), expect: Some(|_| "1".into()), max_pow: mid },
+        // data nested by *moving* the inner value (pop, wrap, push back): no copy of the inner levels is needed
+        Shape { name: "data-nested-by-pop-wrap-push", build: |d| format!("make a get [[]] make i get 0 jasi (i small pass {d}) start a.push([a.pop()]) i get i add 1 end shout(a.len())"), expect: Some(|_| "1".into()), max_pow: mid },
+        Shape { name: "data-nested-by-pop-wrap-push-print", build: |d| format!("make a get [[]] make i get 0 jasi (i small pass {d}) start a.push([a.pop()]) i get i add 1 end shout(to_string(a).len())"), expect: None, max_pow: mid },
+        Shape { name: "data-nested-by-pop-into-variable", build: |d| format!("make a get [[]] make x get [] make i get 0 jasi (i small pass {d}) start x get [a.pop()] a.push(x.pop()) a.push([a.pop()]) i get i add 1 end make c get a shout(c.len())"), expect: Some(|_| "1".into()), max_pow: mid },
+        Shape { name: "data-nested-by-pop-in-function", build: |d| format!("make a get [[]] do w() start return [a.pop()] end make i get 0 jasi (i small pass {d}) start a.push(w()) i get i add 1 end shout(a.len())"), expect: Some(|_| "1".into()), max_pow: mid },
         Shape { name: "data-nested-array-pass", build: |d| format!("do id(p) start return p end make a get [] make i get 0 jasi (i small pass {d}) start a get id([a]) i get i add 1 end shout(i)"), expect: Some(count), max_pow: mid },
     ];
     // unbounded recursion (no depth parameter): d is only a size of irrelevant padding
@@ -261,6 +266,11 @@ impl Space for DepthSpace {
                 continue;
             }
             switches += 1;
+            // where memory or time runs out is a property of the machine, not a boundary of
+            // behaviour: nothing to locate
+            if matches!(hi_c, Class::Memory | Class::Timeout) {
+                continue;
+            }
             let (mut lo, mut hi) = (lo_d, hi_d);
             while hi - lo > 1 {
                 let mid = lo + (hi - lo) / 2;
